@@ -481,6 +481,22 @@ def import_name(ctx):
             ok_returns = [bb for bb in ok_returns if bb not in not_import]
             if ok_returns and not [bb for bb in ok_returns if bb in free and bb not in check_blocks]:
                 behind = []
+        # every import edge goes through the recursive load (to which the checks are chained): an iteration of the loop over the imports cannot
+        # `continue` past it (e.g. "already loaded, skip")
+        from rules_c01 import _must_pass
+        skipped = []
+        for rb in recs:
+            for (h, blks, ex) in loops:
+                if rb not in blks:
+                    continue
+                # the body of one iteration: what the `Some(item)` edge of the iterator's `next` dominates inside the loop
+                for e in b.edges:
+                    if e.src in blks and e.label and e.label[0] == "variant" and e.label[2] == ("Some",) and origin_matches(edge_origin(b, e), lambda o: o[0] == "call" and o[1].endswith("Iterator>::next") or (o[0] == "call" and o[1].endswith("::next"))):
+                        body_blks = b.dominated_by_edge(e) & blks
+                        if rb in body_blks and not _must_pass(b, body_blks, rb):
+                            skipped.append(rb)
+        ctx.check(not skipped, f"{short(b.name)}/every-import-loaded-and-checked", [site(b, x) for x in skipped] or [b.loc()],
+                  "an iteration of the loop over the imports can skip the recursive load and the name checks chained to it: a project reached a second time under a wrong key is accepted")
         ctx.check(not behind, f"{short(b.name)}/checked-on-every-import-edge", [site(b, e.src) for e in behind[:2]] or [b.loc()],
                   "the import-name checks sit behind the 'already loaded' early return: a project reached a second time (import cycle, diamond) under a wrong key is accepted, and the verdict depends on iteration order")
         ctx.check(none_err, f"{short(b.name)}/unnamed-import", [b.loc()], "an imported project without a name is accepted")
@@ -910,7 +926,7 @@ def _py_regex(lit):
     return v
 
 
-@rule("C14.NAME-REGEX", ["C14", "C19"], """the constant regexes that define valid names accept plain names and reject empty names, names starting with `-`, and names containing `:`, `.`, `/` or
+@rule("C14.NAME-REGEX", ["C14", "C19", "C09", "C13"], """the constant regexes that define valid names accept plain names and reject empty names, names starting with `-`, and names containing `:`, `.`, `/` or
       blanks; the `X.output` regex captures at most one `::`-qualified name (evaluated on the literals, as constants of the source)""", "K2", floor=3)
 def name_regex(ctx):
     f = ctx.f
@@ -923,23 +939,23 @@ def name_regex(ctx):
         try:
             rx = _re.compile(_py_regex(lit))
         except _re.error as e:
-            ctx.bad(f"{short(b.name)}/compiles", [site(b, bb)], f"the literal {lit} could not be interpreted: {e}")
+            ctx.bad(f"{short(b.name)}/compiles", [site(b, bb)], f"the literal {lit} could not be interpreted: {e}", props=["C14", "C19"])
             continue
         good = ["a", "my-target", "007", "_hidden", "a_b-c"]
         bad = ["", "-", "-a", "a::b", "a:b", "a.b", "a b", "a/b", "a.output", " a", "a\n"]
         wrong = [x for x in good if not rx.search(x)] + [x for x in bad if rx.search(x)]
-        ctx.check(not wrong, f"{short(b.name.split('::RE')[0]).split(' ')[0].strip('<')}/accepts-exactly-names", [site(b, bb)], f"the name regex {lit} misclassifies {wrong}: names containing `::`/`.` would make target references ambiguous (and the justified unwraps unjustified)")
+        ctx.check(not wrong, f"{short(b.name.split('::RE')[0]).split(' ')[0].strip('<')}/accepts-exactly-names", [site(b, bb)], f"the name regex {lit} misclassifies {wrong}: names containing `::`/`.` would make target references ambiguous (and the justified unwraps unjustified)", props=["C14", "C19"])
     ctx.need(outs, "`X.output` regex literal")
     for (b, bb, lit) in outs:
         try:
             rx = _re.compile(_py_regex(lit))
         except _re.error as e:
-            ctx.bad(f"{short(b.name)}/compiles", [site(b, bb)], f"the literal {lit} could not be interpreted: {e}")
+            ctx.bad(f"{short(b.name)}/compiles", [site(b, bb)], f"the literal {lit} could not be interpreted: {e}", props=["C14", "C19"])
             continue
         cases = {"a.output": "a", "p::t.output": "p::t", "my-t_1.output": "my-t_1"}
         rejects = ["a::b::c.output", ".output", "a.b.output", "a.outputs", "a::.output", "::a.output", "a output", "a.output "]
         wrong = [k for k, v in cases.items() if not rx.search(k) or rx.search(k).group(1) != v] + [x for x in rejects if rx.search(x)]
-        ctx.check(not wrong, "output-reference/captures-one-qualified-name", [site(b, bb)], f"the `X.output` regex {lit} misclassifies {wrong}")
+        ctx.check(not wrong, "output-reference/captures-one-qualified-name", [site(b, bb)], f"the `X.output` regex {lit} misclassifies {wrong}", props=["C14", "C19", "C09", "C13"])
 
 
 @rule("C19.ID-CONSTRUCTION-SITES", ["C19", "C09"], """target ids are built from text only by the name parser (which applies the current-project default); the only other construction is the
